@@ -167,8 +167,8 @@ Section Level.
     2:{ cbn [snd bind] in *. rewrite comp_enc_t2a in Hc.
         apply (Hrec (f_ty f) ltac:(lia) f1 f2 f3 f4 (f_params f) x s bl y); auto; lia. }
     (* an open type: the violation is inside the actual value *)
-    apply andb_true_iff in Hsup. destruct Hsup as [Hno Hos]. unfold open_supr in Hos. apply andb_true_iff in Hos. destruct Hos as [Hos Href].
-    unfold open_sup in Hos. destruct (f_ty f) as [| | | | | | | | |cfs] eqn:Et; try discriminate.
+    apply andb_true_iff in Hsup. destruct Hsup as [Hno Hos]. unfold open_supr in Hos.
+    destruct (f_ty f) as [| | | | | | | | |cfs] eqn:Et; try discriminate.
     destruct x as [| | | | | |cvs| |]; try discriminate. destruct cvs as [|[present| | | | | | | |] cvr]; try discriminate.
     apply andb_true_iff in Hos; destruct Hos as [Hos Hrest].
     apply andb_true_iff in Hos; destruct Hos as [Hos Hleq].
@@ -182,13 +182,28 @@ Section Level.
     destruct (nth_error allv idx) as [rv|] eqn:Erv; [|discriminate].
     destruct (nth_error cfs (Z.to_nat present)) as [a|] eqn:Ea; [|discriminate].
     destruct (nth_error (VInt present :: cvr) (Z.to_nat present)) as [av|] eqn:Eav; [|discriminate].
+    apply andb_true_iff in Hm; destruct Hm as [Href Hm].
+    apply andb_true_iff in Href; destruct Href as [Href Hrfo]. apply andb_true_iff in Href; destruct Href as [Hshape Hrfopt].
     destruct (p_refValue (f_params a)) as [r|] eqn:Er; [|discriminate].
     destruct (get_ref REF_FUEL (f_ty rf) rv) as [z| | |] eqn:Ez; try discriminate.
+    apply Nat.eqb_eq in Hleq.
+    destruct (r =? z)%Z eqn:Erz.
+    2:{ (* the alternative is not the one registered under the identifier: refused on the spot *)
+        cbv zeta. fold idx. assert (Nat.eqb idx i = false) as -> by (apply Nat.eqb_neq; exact Hni).
+        rewrite Erf, Erv, Ez. cbn [bind].
+        destruct f3 as [|f3']; [pose proof (ty_depth_pos (TStruct cfs)); lia|].
+        cbn [makeField]. unfold encStruct. cbn [set_ref p_valueExt p_openType p_refValue].
+        assert (p_valueExt (f_params f) = false) as -> by (destruct (p_valueExt (f_params f)); [discriminate|reflexivity]).
+        cbn [bind]. rewrite Hch. cbn [negb].
+        rewrite opt_pass_false by exact Hleq. cbn [bind]. change (0 <? 0) with false. cbv iota. normty.
+        assert ((present =? 0)%Z = false) as -> by lia.
+        assert ((present >=? Z.of_nat (length cfs))%Z = false) as -> by lia.
+        assert ((present <? 0)%Z = false) as -> by lia.
+        rewrite Ea, Eav, Eo, Er, Erz. eexists; reflexivity. }
+    assert (z = r) by lia. subst z. cbn [negb orb] in Hm.
     apply andb_true_iff in Hm; destruct Hm as [Hm Hne].
-    apply andb_true_iff in Hm; destruct Hm as [Hm Hsupa].
-    apply andb_true_iff in Hm; destruct Hm as [Hrz Hfind].
-    apply Nat.eqb_eq in Hleq. apply Nat.eqb_eq in Hfind. assert (z = r) by lia. subst z.
-    apply andb_true_iff in Href; destruct Href as [Href Hrfo]. apply andb_true_iff in Href; destruct Href as [Hshape Hrfopt].
+    apply andb_true_iff in Hm; destruct Hm as [Hfind Hsupa].
+    apply Nat.eqb_eq in Hfind.
     assert (Hda : (S (ty_depth (f_ty a)) <= ty_depth (TStruct cfs))%nat).
     { rewrite ty_depth_struct. pose proof (fdepth_nth _ _ _ Ea). lia. }
     destruct f2 as [|f2']; [pose proof (ty_depth_pos (TStruct cfs)); lia|].
